@@ -197,6 +197,9 @@ def check_r09a(repo, rep, uni, eff, scope, prefix=''):
             f = call.func
             if isinstance(f, ast.Attribute) and f.attr in eff.self_mut and \
                     f.attr not in effects.MUTATORS:
+                if fi.cls is not None and all(
+                        m.cls is fi.cls for m in eff.self_mut[f.attr]):
+                    continue   # a class working on instances of itself
                 bad = data_tags(env.ev(f.value).tags)
                 nsites += 1
                 if bad:
